@@ -57,6 +57,11 @@ func buildPool() *pool {
 	}
 	a := mk(pki.LeafSpec(k1, "c19-subject"), root, caKey)
 	add("A", a)
+	// A once more with the OTHER valid ECDSA signature value (r, n-s): the same
+	// to-be-signed part, another certificate (quick tier: among the first six)
+	if tw := pki.SignatureTwin(a, caKey.Public()); tw != nil {
+		add("A-same-tbs-other-signature-value", tw)
+	}
 	// same issuer AND same serial number as A, but another key and subject
 	clash := pki.LeafSpec(k2, "c19-serial-clash")
 	clash.Serial = a.SerialNumber
@@ -100,6 +105,17 @@ func judgeIn(r *core.Run, c *Case, buf *[8]*x509.Certificate) bool {
 		trust[i] = pl.trust[x]
 	}
 	si := &signature.SignerInfo{CertificateChain: chain}
+	// the other parts of a SignerInfo must not take part in the trust decision: a
+	// signing time long before / long after every certificate's validity, an expiry
+	switch (len(c.Chain)*5 + len(c.Trust)) % 3 {
+	case 1:
+		si.SignedAttributes.SigningTime = time.Date(1990, 1, 1, 0, 0, 0, 0, time.UTC)
+		si.SignedAttributes.SigningScheme = signature.SigningSchemeX509
+	case 2:
+		si.SignedAttributes.SigningTime = time.Date(2099, 1, 1, 0, 0, 0, 0, time.UTC)
+		si.SignedAttributes.Expiry = time.Date(2098, 1, 1, 0, 0, 0, 0, time.UTC)
+		si.SignedAttributes.SigningScheme = signature.SigningSchemeX509SigningAuthority
+	}
 	got, err := signature.VerifyAuthenticity(si, trust)
 	// reference
 	want := -1
@@ -124,6 +140,11 @@ func judgeIn(r *core.Run, c *Case, buf *[8]*x509.Certificate) bool {
 	case len(c.Trust) == 0:
 		if err == nil || got != nil || !errors.As(err, &argErr) {
 			return fail("empty-trust-list-not-an-argument-error", fmt.Sprintf("got cert=%v err=%v (%T)", got != nil, err, err))
+		}
+		if errors.As(err, &authErr) {
+			// "an argument error, not a trust failure": also for a caller that
+			// classifies errors through the chain
+			return fail("empty-trust-list-also-a-trust-failure", fmt.Sprintf("the error for an empty trust list also matches *SignatureAuthenticityError in its chain: %v", err))
 		}
 		r.Count("argument-errors", 1)
 	case want < 0:
@@ -243,7 +264,7 @@ func run(r *core.Run) int {
 		"plus the scheme x time grid for AuthenticSigningTime. non-trivial = chain and trust list share a look-alike pair or an exact match; counted per distinct (chain, trust) pair"
 	r.Assume("pointer identity of the returned certificate is asserted only as membership in the trust list plus DER equality")
 	pl = buildPool()
-	n := r.Pick(6, 11)
+	n := r.Pick(6, 12)
 	maxTrust := 4
 	chains := tuples(n, 4, false)
 	trusts := tuples(n, maxTrust, true)
